@@ -33,7 +33,7 @@ REACH = {"quick": {"op:tail": 300, "op:insert": 300, "op:sort": 400, "op:unique"
                    "tail:n=0": 25, "insert:at-or-past-end": 60, "insert:negative": 60, "sort:none-present": 150, "len:0": 200}}
 
 OPS = ["modify_dep", "modify_if2", "modify2", "fill_after_inplace_key", "filter_pred", "filter_kv", "filter_out_pred", "filter_out_kv", "sort", "unique", "select", "unselect", "rename", "modify", "modify_if",
-       "fill_missing_keys", "fill_missing_keys_all", "append", "extend", "insert", "add", "mul", "reverse", "head", "tail", "slice", "copy", "drop_na", "extend_self", "add_self", "rmul", "setitem", "iadd", "imul", "setslice"]
+       "fill_missing_keys", "fill_missing_keys_all", "append", "extend", "insert", "add", "mul", "reverse", "head", "tail", "slice", "copy", "drop_na", "extend_self", "add_self", "rmul", "setitem", "iadd", "imul", "setslice", "append_own", "insert_own"]
 
 def gen_items(rng, n, start=0):
     items = []
@@ -170,6 +170,8 @@ def model(L, op, arg):
         out = list(L)
         out[{"0": 0, "-1": -1, "mid": n // 2}[arg[0]]] = arg[1]
         return out
+    if op == "append_own": return L + [L[0]]
+    if op == "insert_own": return [L[-1]] + L
     if op == "iadd": return L + (L if arg[0] == "self" else list(arg[1]))
     if op == "imul": return L * arg
     if op == "setslice":
@@ -243,6 +245,16 @@ def apply(di, data, op, arg):
     if op == "imul":
         data *= arg
         return data
+    if op in ("append_own", "insert_own"):
+        # an item of the list itself (already an attribute dict) goes to a second position: as with list.append / list.insert
+        # it is that very object that sits at both positions afterwards, so that a later edit of the items shows at both
+        item = list.__getitem__(data, 0 if op == "append_own" else -1)
+        out = data.append(item) if op == "append_own" else data.insert(0, item)
+        a, b = (list.__getitem__(out, 0), list.__getitem__(out, -1))
+        if op == "insert_own": a, b = list.__getitem__(out, 0), list.__getitem__(out, -1)
+        if a is not b:
+            raise AssertionError(f"{op}: the item added is a copy of the attribute dict given, not that object (list.append / list.insert add the object itself)")
+        return out
     if op == "extend_self": return data.extend(data)
     if op == "add_self": return data + data
     if op == "reverse": return data.reverse()
@@ -271,6 +283,7 @@ def usable(L, op, arg):
         olds = {old for _, old in arg}
         return not any(new in x and new not in olds for x in L for new, _ in arg)
     if op == "setitem": return len(L) >= 1
+    if op in ("append_own", "insert_own"): return len(L) >= 1
     if op == "modify_dep": return all(x.get("a") is None or (isinstance(x.get("a"), (int, float)) and not isinstance(x.get("a"), bool)) for x in L)
     if op in ("modify", "modify_if"): return all("_tag_" in x for x in L)
     if op in ("filter_pred", "filter_out_pred"): return all(("a" in x and "b" in x and "_tag_" in x) for x in L)
@@ -296,7 +309,7 @@ def execute(case):
             res.skip(f"domain:{op}")
             continue
         name = {"filter_pred": "filter", "filter_kv": "filter", "filter_out_pred": "filter_out", "filter_out_kv": "filter_out",
-                "fill_missing_keys_all": "fill_missing_keys", "modify_if2": "modify_if", "modify2": "modify", "modify_dep": "modify", "fill_after_inplace_key": "fill_missing_keys", "extend_self": "extend", "add_self": "add", "iadd": "add", "imul": "mul"}.get(op, op)
+                "fill_missing_keys_all": "fill_missing_keys", "modify_if2": "modify_if", "modify2": "modify", "modify_dep": "modify", "fill_after_inplace_key": "fill_missing_keys", "extend_self": "extend", "add_self": "add", "iadd": "add", "imul": "mul", "append_own": "append", "insert_own": "insert"}.get(op, op)
         res.cls(f"op:{name}")
         n = len(L)
         feat = "plain"
